@@ -830,7 +830,19 @@ func c04R4(c *Ctx) {
 	// roles
 	var doCopy, copyNode, mountFn *ssa.Function
 	for _, f := range c.P.FuncsOfPkg("") {
-		if f.Parent() == nil && len(CallsTo(f, nFetch)) > 0 && len(CallsTo(f, nPush)) > 0 {
+		hasIn := func(name string) bool {
+			if len(CallsTo(f, name)) > 0 {
+				return true
+			}
+			for _, a := range Anons(f) {
+				if len(CallsTo(a, name)) > 0 {
+					return true
+				}
+			}
+			return false
+		}
+		// fetches and pushes itself, or in closures it hands to a transfer helper
+		if f.Parent() == nil && hasIn(nFetch) && hasIn(nPush) {
 			if doCopy != nil {
 				c.Undecided(R, "roles|transfer", f.Pos(), "more than one function fetches and pushes directly: "+FnName(doCopy)+", "+FnName(f))
 				return
@@ -957,11 +969,67 @@ func c04R4(c *Ctx) {
 		F := doCopy
 		fn := FnName(F)
 		fs, ps := CallsTo(F, nFetch), CallsTo(F, nPush)
-		x, _ := c04AnyReach(append(c04Instrs(fs), c04Instrs(ps)...), append(c04Instrs(fs), c04Instrs(ps[:0])...))
-		ok := len(fs) == 1 && len(ps) == 1 && x == nil && !Reachable(ps[0].(ssa.Instruction), ps[0].(ssa.Instruction)) &&
-			MustPass(ps[0].(ssa.Instruction), newCut().Calls(fs))
+		if len(fs) == 0 || len(ps) == 0 {
+			// Fetch / Push sit in closures handed to a module helper: transfer(fetch, push, …).  The sequencing is the
+			// helper's: it calls its fetch parameter, then its push parameter, and closes the reader.
+			closureWith := func(name string) *ssa.Function {
+				var out *ssa.Function
+				n := 0
+				for _, a := range Anons(doCopy) {
+					if k := len(CallsTo(a, name)); k == 1 {
+						out = a
+						n++
+					} else if k > 1 {
+						n += 2
+					}
+				}
+				if n != 1 {
+					return nil
+				}
+				return out
+			}
+			cf, cp := closureWith(nFetch), closureWith(nPush)
+			fs, ps = nil, nil
+			for _, call := range Calls(doCopy, func(string) bool { return true }) {
+				h := StaticCallee(call)
+				if h == nil || !inModule(h) || len(h.Blocks) == 0 || cf == nil || cp == nil {
+					continue
+				}
+				fi, pi := -1, -1
+				for i, a := range call.Common().Args {
+					if g, _ := c01FuncOfValue(a); g != nil {
+						if g == cf {
+							fi = i
+						}
+						if g == cp {
+							pi = i
+						}
+					}
+				}
+				if fi < 0 || pi < 0 || Reachable(call.(ssa.Instruction), call.(ssa.Instruction)) {
+					continue
+				}
+				F = h
+				for _, hc := range Calls(h, func(string) bool { return true }) {
+					if hc.Common().IsInvoke() {
+						continue
+					}
+					if hc.Common().Value == ssa.Value(h.Params[fi]) {
+						fs = append(fs, hc)
+					}
+					if hc.Common().Value == ssa.Value(h.Params[pi]) {
+						ps = append(ps, hc)
+					}
+				}
+			}
+		}
+		ok := len(fs) == 1 && len(ps) == 1
+		if ok {
+			x, _ := c04AnyReach(append(c04Instrs(fs), c04Instrs(ps)...), c04Instrs(fs))
+			ok = x == nil && !Reachable(ps[0].(ssa.Instruction), ps[0].(ssa.Instruction)) && MustPass(ps[0].(ssa.Instruction), newCut().Calls(fs))
+		}
 		c.Check(R, fn+"|one-fetch-then-one-push", F.Pos(), ok,
-			ifelse(ok, "one Fetch, then one Push, neither repeated", "the transfer fetches or pushes more than once per node (or pushes without fetching)"))
+			ifelse(ok, "one Fetch, then one Push, neither repeated", "the transfer fetches or pushes more than once per node (or pushes without fetching), or Fetch/Push are reached in a way that is not recognised"))
 		okClose := false
 		if len(fs) == 1 {
 			rc := ResultOf(fs[0], 0)
@@ -995,6 +1063,7 @@ func c04R4(c *Ctx) {
 		// terminal actions of f: the callback / node copy / mount-or-copy sites, and calls of module helpers that
 		// perform one (their inner sites must exclude each other as well)
 		var a, b ssa.Instruction
+		nLeaf := 0
 		var actions func(f *ssa.Function, depth int, seen map[*ssa.Function]bool) []ssa.Instruction
 		actions = func(f *ssa.Function, depth int, seen map[*ssa.Function]bool) []ssa.Instruction {
 			var out []ssa.Instruction
@@ -1010,7 +1079,7 @@ func c04R4(c *Ctx) {
 					if h == nil && !call.Common().IsInvoke() {
 						h, _ = c01FuncOfValue(call.Common().Value)
 					}
-					if h == nil || !inModule(h) || len(h.Blocks) == 0 || h == copyNode || h == mountFn || h == doCopy || seen[h] || h == tr.Entry || h == tr.Body {
+					if h == nil || !inModule(h) || len(h.Blocks) == 0 || h == copyNode || h == mountFn || h == doCopy || seen[h] || h == tr.Entry {
 						continue
 					}
 					if fnPkgPath(h) != Mod {
@@ -1025,9 +1094,15 @@ func c04R4(c *Ctx) {
 			if x, y := c04AnyReach(out, out); x != nil && a == nil {
 				a, b = x, y
 			}
+			if len(out) > nLeaf {
+				nLeaf = len(out)
+			}
 			return out
 		}
-		acts := actions(T, 0, map[*ssa.Function]bool{})
+		acts := actions(tr.Entry, 0, map[*ssa.Function]bool{})
+		if nLeaf > len(acts) {
+			acts = make([]ssa.Instruction, nLeaf) // the alternatives live in a function the entry calls
+		}
 		c.Check(R, c01ClosureKey(T, "traverse")+"|one-terminal-action-per-node", T.Pos(), a == nil && len(acts) >= 2,
 			ifelse(a == nil, fmt.Sprintf("OnCopySkipped / node copy / mount-or-copy exclude each other and none repeats (%d sites)", len(acts)), fmt.Sprintf("%s can be followed by %s for the same node", instrLabelOr(a), instrLabelOr(b))))
 	}
